@@ -140,4 +140,23 @@ def prepareInput (unev : V) (g : Grid V) (r c : Nat) : Option (Grid V) :=
 def userSet (unev : V) (g : Grid V) (r c : Nat) (x : GCell V) : Option (Grid V) :=
   (prepareInput unev g r c).map fun g1 => set g1 r c x
 
+/-- models `set_user_array_formula` (formula case): the anchor cell is prepared like any user
+    input; the anchor becomes a fixed-range (CSE) array formula; EVERY other cell of the declared
+    range is overwritten with a placeholder (an ordinary empty text), whatever it held -/
+def userSetCse (unev : V) (g : Grid V) (r c w h : Nat) : Option (Grid V) :=
+  (prepareInput unev g r c).map fun g1 => fun i j =>
+    if inBlock r c h w i j then
+      if i = r ∧ j = c then .anchor .cse w h unev else .plain unev
+    else g1 i j
+
+/-- models `set_cells_with_result` for a CSE anchor: every cell of the DECLARED range is
+    overwritten (no blocking test), the anchor keeps its range -/
+def evalCse (g : Grid V) (r c : Nat) (v : V) : Grid V :=
+  match g r c with
+  | .anchor .cse w h _ => fun i j =>
+    if inBlock r c h w i j then
+      if i = r ∧ j = c then .anchor .cse w h v else .spill r c v
+    else g i j
+  | _ => g
+
 end IronCalc.Spill
